@@ -20,16 +20,26 @@ WHAT IS PROVED (about the executable model that the correspondence run ties to t
 
   Hypotheses common to the run theorems (`RunHyp`):
     Univ U        the keys of the history have u64 prefixes and pairwise distinct 26-byte tails
-                  (assumption A-tail; the harness embeds a unique id in every tail)
+                  (assumption A-tail; the harness embeds a unique id in every tail).  EXACT REACH:
+                  a pair of distinct hashed keys with equal bytes 6..32 (they differ in bytes 0..5
+                  only) is excluded.  On non-uniform columns that is a 208-bit partial collision of
+                  salted Blake2b-256; on uniform columns of format version 8 the two user keys must
+                  agree in bytes 16..32 and their salted SipHash-1-3-128 values must agree in 80 of
+                  128 bits (about 2^40 trials knowing the salt, which is in the metadata file); on
+                  uniform columns of format versions <= 7 and with the test-only identity hash the
+                  user chooses the hashed keys.  Without A-tail the statement is FALSE (finding F29,
+                  `C09_full_statement_false_twin` in Pdb/Props/C09F24.lean, reproduced on the crate).
     ActOK         keys of the actions lie in `U`; size tiers are < 256 (any number of
                   continuation slots: a `set` carries the tier and the number `ext` of slots the
                   stored value takes besides its head slot, `ext > 0` in the multipart tier 255)
     AllBounded    every state of the run has at most 49 index bits and fewer than 2^56 slots per
-                  value table.  A key set with more than 64 keys sharing all 50 index-visible
-                  bits cannot be split by growth: the model then grows past 49 bits (or runs out
-                  of loop fuel), i.e. such histories are excluded by this hypothesis / by the
-                  run returning `.ok`.  This is the "at most 64 keys per (page, partial key)"
-                  bound of the property.
+                  value table.  This is a hypothesis on the model's TRAJECTORY; together with
+                  `hrun : runA .. = .ok s'` it is DERIVED from hypotheses on the input alone in
+                  Pdb/Props/C09Total.lean (`InputOK`, `C09_run_total`, theorems `.._total`).
+                  It is not implied by "at most 64 keys per (page, partial key)": index entries
+                  whose slot has been freed or reused count toward the 64 entries of a page as
+                  well (finding F28).  With more than 64 entries of one class the model grows past
+                  49 bits (`C09_no_total_65`), the crate doubles the index file until it fails.
   Actions: set / del (one planned operation), reindex (one batch), enact (logged DropTable takes
   effect), reopen (`open_index`; with `enact` before it this is crash recovery), relaunch
   (`trigger_reindex` by the validation of a rejected record during recovery).  The pipeline
